@@ -1669,6 +1669,21 @@ fn families_of(prop: &str, tier: Tier) -> Vec<Cfg> {
             c.max_conns = 2;
             c.max_reqs = 2;
             c.dev = 2;
+            // ... and a transport that goes on refusing for as long as the call lasts: every call makes one attempt
+            // and returns, whatever it was doing (an owed acknowledgement inside recv() included)
+            let mut cz = Cfg::base("C16-transport-refuses-writes-for-a-whole-call");
+            cz.props = vec!["C16"];
+            cz.ops = vec![OpK::Pub1, OpK::Sub, OpK::Poll, OpK::Recv, OpK::Drive, OpK::Disconnect];
+            cz.io = IoMenu::benign();
+            cz.io.write_zero = true;
+            cz.io.write_zero_sticky = true;
+            cz.io.write_partial = true;
+            cz.broker.script = vec![inpub(1, 5), inpub(2, 6)];
+            cz.watchdog_calls = 300;
+            cz.max_ops = if q { 5 } else { 6 };
+            cz.max_conns = 2;
+            cz.max_reqs = 2;
+            cz.dev = 2;
             // buffering transport: every interrupted flush must be resumed
             let mut d = Cfg::base("C16-buffering-transport");
             d.props = vec!["C16"];
@@ -1759,7 +1774,7 @@ fn families_of(prop: &str, tier: Tier) -> Vec<Cfg> {
             sk.max_conns = 2;
             sk.max_reqs = 1;
             sk.dev = 0;
-            vec![a, b, c, d, e, f, g, h, i, j, sk, rl, ex, ap]
+            vec![a, b, c, cz, d, e, f, g, h, i, j, sk, rl, ex, ap]
         }
         "C18" => {
             let mut a = Cfg::base("C18-status-after-every-step");
